@@ -63,8 +63,8 @@ PROPS["C01"] = {
 
 # ------------------------------------------------------------------ C02
 PROPS["C02"] = {
-    "bounds": "numeric leaf signatures y b n q i u x t d and text s (0..=3 ASCII bytes, including the empty string), D-Bus and GVariant, message offsets 0..7 (text 0..3), both byte orders",
-    "outside": "containers, HashMap, Option/maybe, derived structs/enums, Value/OwnedValue (container decoding does not fit, DESIGN.md 9.5)",
+    "bounds": "numeric leaf signatures y b n q i u x t d (every value) and the empty string, D-Bus and GVariant, message offsets 0..7, both byte orders",
+    "outside": "non-empty strings (2 symbolic text bytes already exceed 16 GB in the combined encode+decode query; their encoding and decoding are decided separately in C01/C03), containers, HashMap, Option/maybe, derived structs/enums, Value/OwnedValue (container decoding does not fit, DESIGN.md 9.5)",
     "assumptions": [FMT_STUB, CLOSE_STUB, FORGET, RECB],
     "level_text": "Bounded model checking of encode followed by decode on the compiled code: for every value of each leaf type, offset and byte order the solver proves the decoded value equals the original and the decoder consumed exactly the encoded length, in both wire formats.",
     "level_note": "bounded to leaf signatures; trusts Kani/CBMC and the stubs listed in assumptions",
@@ -73,23 +73,25 @@ PROPS["C02"] = {
              [H("c02_rt_dbus_%s" % t, "quick" if t in "ud" else "thorough", timeout=1500, cost=200, recursion_bounds=REC1,
                 bounds="value symbolic; offset 0..7; byte order symbolic; 16-byte buffer",
                 asserts="decode(encode(v)) == v (bitwise for f64) and consumed == encoded length") for t in "ybnqiuxtd"] +
-             [H("c02_rt_dbus_s", "thorough", timeout=1800, cost=400, recursion_bounds=REC1, mem_gb=20,
-                bounds="text 0..=3 ASCII bytes; offset 0..3", asserts="round trip text and consumed length")]),
+             [H("c02_rt_dbus_s_n%d" % n, "thorough", timeout=1800, cost=300, recursion_bounds=REC1, mem_gb=16,
+                bounds="text of exactly %d symbolic ASCII byte(s); message offset %d; byte order symbolic; from_utf8/memchr byte-loop stubs" % (n, 0 if n == 0 else 1),
+                asserts="round trip text and consumed length") for n in (0,)]),
         dict(ZV_GV, harnesses=
              [H("c02_rt_gv_%s" % t, "quick" if t in "u" else "thorough", timeout=1500, cost=200, recursion_bounds=REC1,
                 bounds="GVariant; value symbolic; offset 0..7; byte order symbolic",
                 asserts="decode(encode(v)) == v and consumed == encoded length") for t in "ybqutd"] +
-             [H("c02_rt_gv_s", "thorough", timeout=1800, cost=400, recursion_bounds=REC1, mem_gb=20,
-                bounds="GVariant; text 0..=3 ASCII bytes; offset 0..3", asserts="round trip text and consumed length")]),
+             [H("c02_rt_gv_s_n%d" % n, "thorough", timeout=1800, cost=300, recursion_bounds=REC1, mem_gb=16,
+                bounds="GVariant; text of exactly %d symbolic ASCII byte(s); message offset %d; byte order symbolic; from_utf8/memchr byte-loop stubs" % (n, 0 if n == 0 else 1),
+                asserts="round trip text and consumed length") for n in (0,)]),
     ],
 }
 
 # ------------------------------------------------------------------ C03
 PROPS["C03"] = {
-    "bounds": "fixed-size leaf signatures on 16 arbitrary bytes (length 0..=16, offset 0..7, both byte orders); strings on 8 arbitrary bytes per offset 0..3; object paths (typed target, 7 bytes)",
-    "outside": "arrays, structs, dicts, variants, the dynamic Value target (ValueSeed path: times out at 1500 s even for leaf signatures), depth limits through bytes (do not fit, DESIGN.md 9.5); strings longer than 3 bytes",
+    "bounds": "fixed-size leaf signatures on 16 arbitrary bytes (length 0..=16, offset 0..7, both byte orders); strings on 8 arbitrary bytes per offset 0..3",
+    "outside": "object paths through bytes (typed ObjectPath decode of 7 symbolic bytes times out at 1500 s; the grammar itself is C10), arrays, structs, dicts, variants, the dynamic Value target (ValueSeed path: times out at 1500 s even for leaf signatures), depth limits through bytes (do not fit, DESIGN.md 9.5); strings longer than 3 bytes",
     "assumptions": [FMT_STUB, CLOSE_STUB, FORGET, RECB],
-    "level_text": "Bounded model checking of the real D-Bus deserializer on fully symbolic input buffers against an independent validating reader written from the specification: acceptance, decoded value and consumed count must agree for every byte string within the bound (zero padding, BOOLEAN 0/1, string length inside the buffer, NUL terminator, interior NUL, UTF-8, object-path grammar).",
+    "level_text": "Bounded model checking of the real D-Bus deserializer on fully symbolic input buffers against an independent validating reader written from the specification: acceptance, decoded value and consumed count must agree for every byte string within the bound (zero padding, BOOLEAN 0/1, string length inside the buffer, NUL terminator, interior NUL, UTF-8).",
     "level_note": "bounded to leaf signatures; core::str::from_utf8 and memchr are replaced by byte-loop specifications in the text harnesses (trusted equivalence, checked natively on every run)",
     "groups": [
         dict(ZV, harnesses=
@@ -98,7 +100,7 @@ PROPS["C03"] = {
                 asserts="Ok iff the spec reader accepts; equal value and consumed count") for t in "ynqiuxtdb"] +
              [H("c03_dec_%s_p%d" % (t, p), "quick" if (t, p) in (("s", 0), ("s", 3), ("o", 1)) else "thorough", timeout=1500, cost=200, recursion_bounds=REC1, mem_gb=14,
                 bounds="8 symbolic bytes, length 0..=8 symbolic, message offset %d, byte order symbolic, unwind 10; core::str::from_utf8 and memchr replaced by byte-loop specifications" % p,
-                asserts="Ok iff the spec reader accepts (zero padding, length inside buffer, NUL terminator, no interior NUL, UTF-8, path grammar); equal text and consumed count") for (t, p) in [("s", 0), ("s", 1), ("s", 2), ("s", 3), ("o", 0)]] +
+                asserts="Ok iff the spec reader accepts (zero padding, length inside buffer, NUL terminator, no interior NUL, UTF-8, path grammar); equal text and consumed count") for (t, p) in [("s", 0), ("s", 1), ("s", 2), ("s", 3)]] +
 
              []),
     ],
@@ -125,7 +127,7 @@ PROPS["C04"] = {
               asserts="no panic/overflow/out-of-bounds (Kani checks) in the D-Bus string decoder; consumed <= input"),
         ]),
         dict(ZV_INCRATE_GV, harnesses=[
-            H("c04_framing_offsets_decode_total", "quick", timeout=900, cost=150,
+            H("c04_framing_offsets_decode_total", "quick", timeout=900, cost=150, inline_mod="gv",
               bounds="container of 0..=6 arbitrary bytes", asserts="FramingOffsets::from_encoded_array never panics; offsets <= start of table; count consistent"),
         ]),
     ],
@@ -142,11 +144,12 @@ PROPS["C05"] = {
         dict(ZV_GV, harnesses=
              [H("c05_enc_%s" % t, "quick" if t in ("u", "s", "b") else "thorough", timeout=2400, cost=300, recursion_bounds=REC1, mem_gb=16, role=("witness" if t == "b" else "main"),
                 bounds="GVariant; value symbolic (text 0..=3 ASCII bytes, maybe present/absent symbolic); offset 0..15; byte order symbolic",
-                asserts="bytes and length == GVariant specification layout") for t in ["y", "b", "q", "u", "t", "d", "s"]]),
+                asserts="bytes and length == GVariant specification layout") for t in ["y", "b", "q", "u", "t", "d", "s"]] +
+             []),
         dict(ZV_INCRATE_GV, harnesses=[
-            H("c05_offset_size_selection", "quick", timeout=600, cost=10, bounds="len <= 2^62, n <= 2^58 symbolic",
+            H("c05_offset_size_selection", "quick", timeout=600, cost=10, inline_mod="gv", bounds="len <= 2^62, n <= 2^58 symbolic",
               asserts="for_bare_container == smallest w in {1,2,4,8} with len + n*w <= 2^(8w)-1"),
-            H("c05_offset_write_read_inverse", "quick", timeout=600, cost=10, bounds="width symbolic, offset symbolic (representable)",
+            H("c05_offset_write_read_inverse", "quick", timeout=600, cost=10, inline_mod="gv", bounds="width symbolic, offset symbolic (representable)",
               asserts="write_offset emits exactly w little-endian bytes; read_last_offset_from_buffer inverts it"),
         ]),
     ],
@@ -172,16 +175,25 @@ PROPS["C07"] = {
 
 # ------------------------------------------------------------------ C08
 PROPS["C08"] = {
-    "bounds": "three symbolic numeric leaf values (any of y b n q i u x t d with any payload, NaN and signed zeros included)",
+    "bounds": "three symbolic values per numeric variant (y b n q i u x t d, every payload incl. NaN, signed zeros, infinities) and three cross-variant combinations",
     "outside": "strings, containers, nested values, OwnedValue, conversions other than u32/i64/f64",
     "assumptions": [FMT_STUB, FORGET, "hashing is observed through a deterministic FNV-1a Hasher (Hash must be a function of the bytes fed to the hasher)"],
-    "level_text": "Bounded model checking of Value's PartialEq / Ord / Hash / try_clone / value_signature / From / TryFrom on symbolic numeric leaves: pairwise laws over all 81 variant pairs and all payloads, transitivity over float triples (NaN, signed zeros, infinities) and mixed-variant triples.",
+    "level_text": "Bounded model checking of Value's PartialEq / Ord / Hash / try_clone / value_signature / From / TryFrom on symbolic numeric leaves: all laws over value triples of each numeric variant (every payload; NaN, signed zeros, infinities for floats) and over three cross-variant combinations.",
     "level_note": "numeric leaves only; strings, containers and nested values outside the claim",
     "groups": [dict(ZV, harnesses=[
-        H("c08_pair_laws", timeout=2400, cost=600, mem_gb=16, bounds="2 symbolic numeric leaves (any of 9 variants, any payload)", asserts="== reflexive/symmetric (NaN-free), cmp reflexive/antisymmetric for all values incl. NaN, cmp/== consistency, equal => equal hash"),
-        H("c08_f64_triple_laws", timeout=2400, cost=300, mem_gb=16, bounds="3 symbolic f64 payloads incl. NaN, signed zeros, infinities", asserts="transitivity of cmp (all values) and of == (NaN-free)"),
-        H("c08_mixed_triple_laws", "thorough", timeout=3000, cost=900, mem_gb=16, bounds="3 symbolic leaves over {u8, i64, f64}", asserts="transitivity across variants"),
-        H("c08_leaf_clone_signature", timeout=2400, cost=600, mem_gb=16, bounds="1 symbolic numeric leaf; u32/i64/f64 conversions", asserts="try_clone preserves == and signature; T -> Value -> T identity"),
+        H("c08_f64_triple_laws", timeout=1800, cost=150, mem_gb=16, bounds="3 symbolic f64 payloads incl. NaN, signed zeros, infinities", asserts="== equivalence (NaN-free), cmp total order for all values incl. NaN, cmp/== consistency, equal => equal hash"),
+        H("c08_laws_y", "quick", timeout=1800, cost=150, mem_gb=16, bounds="3 symbolic values of variant y", asserts="== equivalence, cmp total order, consistency, equal => equal hash"),
+        H("c08_laws_b", "thorough", timeout=1800, cost=150, mem_gb=16, bounds="3 symbolic values of variant b", asserts="== equivalence, cmp total order, consistency, equal => equal hash"),
+        H("c08_laws_n", "thorough", timeout=1800, cost=150, mem_gb=16, bounds="3 symbolic values of variant n", asserts="== equivalence, cmp total order, consistency, equal => equal hash"),
+        H("c08_laws_q", "thorough", timeout=1800, cost=150, mem_gb=16, bounds="3 symbolic values of variant q", asserts="== equivalence, cmp total order, consistency, equal => equal hash"),
+        H("c08_laws_i", "thorough", timeout=1800, cost=150, mem_gb=16, bounds="3 symbolic values of variant i", asserts="== equivalence, cmp total order, consistency, equal => equal hash"),
+        H("c08_laws_u", "thorough", timeout=1800, cost=150, mem_gb=16, bounds="3 symbolic values of variant u", asserts="== equivalence, cmp total order, consistency, equal => equal hash"),
+        H("c08_laws_x", "quick", timeout=1800, cost=150, mem_gb=16, bounds="3 symbolic values of variant x", asserts="== equivalence, cmp total order, consistency, equal => equal hash"),
+        H("c08_laws_t", "thorough", timeout=1800, cost=150, mem_gb=16, bounds="3 symbolic values of variant t", asserts="== equivalence, cmp total order, consistency, equal => equal hash"),
+        H("c08_laws_y_x", "thorough", timeout=1800, cost=200, mem_gb=16, bounds="values of two different variants (y_x), all payloads, both argument orders", asserts="laws across variants (never equal, ordering antisymmetric/transitive/consistent)"),
+        H("c08_laws_d_t", "thorough", timeout=1800, cost=200, mem_gb=16, bounds="values of two different variants (d_t), all payloads, both argument orders", asserts="laws across variants (never equal, ordering antisymmetric/transitive/consistent)"),
+        H("c08_laws_u_d", "quick", timeout=1800, cost=200, mem_gb=16, bounds="values of two different variants (u_d), all payloads, both argument orders", asserts="laws across variants (never equal, ordering antisymmetric/transitive/consistent)"),
+        H("c08_leaf_clone_signature", "thorough", timeout=3000, cost=900, mem_gb=16, bounds="1 symbolic leaf over {u8, i64, f64}; u32/i64/f64 conversions", asserts="try_clone preserves == and signature; T -> Value -> T identity"),
         H("c08_leaf_laws_nan_witness", timeout=900, cost=60, role="witness", bounds="F64(NaN), any NaN payload", asserts="reflexivity and cmp/== consistency (listed finding D7)"),
     ])],
 }
